@@ -402,6 +402,12 @@ func (e *SpecEnv) fieldOf(v Val, name string, x Expr) Val {
 		if len(cs) == 0 {
 			out.L = l // opaque (mutex etc.)
 		}
+		// values of Go fields are well-typed (only for ground reads; reads under binders carry no facts)
+		if e.side != nil && !strings.Contains(ref, "q$") {
+			for _, f := range e.fx.typingFacts(out) {
+				*e.side = append(*e.side, f)
+			}
+		}
 		return out
 	}
 	// struct value
@@ -554,6 +560,30 @@ func (e *SpecEnv) binary(x *EBinary) Val {
 		_ = gs
 		sfail("use setadd(s, x)")
 	}
+	if a.T == MathInt && b.T == MathInt {
+		if av, ok := litVal(a.s()); ok {
+			if bv, ok2 := litVal(b.s()); ok2 {
+				var r *big.Int
+				switch x.Op {
+				case "+":
+					r = new(big.Int).Add(av, bv)
+				case "-":
+					r = new(big.Int).Sub(av, bv)
+				case "*":
+					r = new(big.Int).Mul(av, bv)
+				case "<<":
+					r = new(big.Int).Lsh(av, uint(bv.Int64()))
+				case "/":
+					if bv.Sign() != 0 {
+						r = new(big.Int).Quo(av, bv)
+					}
+				}
+				if r != nil {
+					return Val{T: MathInt, C: []string{e.mode().num(r, "Int")}}
+				}
+			}
+		}
+	}
 	a, b = e.unify(a, b)
 	if isReal(a.T) || isReal(b.T) {
 		ar, br := e.toReal(a), e.toReal(b)
@@ -649,9 +679,18 @@ func (e *SpecEnv) quant(x *EQuant) Val {
 	var pats []string
 	for _, tr := range x.Triggers {
 		var ts []string
+		okTrig := true
 		for _, t := range tr {
 			tv := ne.eval(t)
+			for _, c := range tv.C {
+				if !(strings.HasPrefix(c, "(select ") || strings.HasPrefix(c, "(pf$")) {
+					okTrig = false
+				}
+			}
 			ts = append(ts, tv.C...)
+		}
+		if !okTrig {
+			continue // not a legal pattern in this context (e.g. a revealed definition)
 		}
 		pats = append(pats, ":pattern ("+strings.Join(ts, " ")+")")
 	}
